@@ -928,14 +928,25 @@ def engine_ct(prop, tier, seed, spec):
             d = cttrace.compare(binp, ref, traces[k])
             if d is None:
                 continue
-            # a divergence must reproduce in fresh traces of both executions (3 of 3)
+            # a divergence must reproduce in fresh traces of both executions (3 of 3); if both fresh
+            # pairs are equivalent the first divergence was trace noise (the Go scheduler's cooperative
+            # pre-emption re-executes a function prologue; seen when the machine is loaded) and the pair
+            # counts as held on the fresh traces; anything in between is inconclusive
             k0, a0, b0, _, _ = lst[0]
             repro = 1
+            fresh_ref = None
             for _ in range(2):
                 t1 = cttrace.trace(binp, [op, a0.hex(), b0.hex(), pub.hex()])
                 t2 = cttrace.trace(binp, [op, a.hex(), b.hex(), pub.hex()])
                 if cttrace.compare(binp, t1, t2) is not None:
                     repro += 1
+                else:
+                    fresh_ref = t1
+            if repro == 1:
+                agg.classes["noisy-first-trace-pairs(re-traced twice, equivalent)"] = agg.classes.get("noisy-first-trace-pairs(re-traced twice, equivalent)", 0) + 1
+                if fresh_ref is not None and cttrace.compare(binp, fresh_ref, traces[k]) is None:
+                    ref = fresh_ref  # the stored reference trace was the noisy one
+                continue
             if repro < 3:
                 agg.inconclusive.append("%s %s secret #%d: divergence (%s) reproduced only %d of 3 times" % (cfg, op, k, d.get("kind"), repro))
                 continue
